@@ -100,8 +100,8 @@ inductive M where
   | ret (f : Loc → Res Out)                       -- `return <expr>` (the expression may raise)
   | call (o : Obj) (name : String) (body : M) (enter : Loc → Loc) (leave : Loc → Out → Loc)
   | callR (o : Obj) (name : String) (body : M) (enter : Loc → Loc) (leave : Loc → Out → Loc)
-      -- a call on the RESULT of previous calls (which may be the shared object `o` itself: then `enter` leaves
-      -- `selfFresh = .shared`, otherwise the operand is local)
+      -- a call on the RESULT of previous calls: `enter` names the receiver — the shared object the result IS (`objOf`,
+      -- `selfFresh = .shared`), or a local operand (`selfFresh = freshOf result`); `o` = the object it may alias
   | loop (body : M)                               -- only to mirror a skeleton with accesses in a loop (unused)
 
 abbrev P := Prog Cell Val (Res Out)
@@ -138,8 +138,8 @@ def den : M → Loc → (PyErr → P) → (Loc → P) → (Loc → P) → P
   | .ret f, s, kx, kr, _ => bindRes (f s) kx (fun o => kr { s with out := o })
   | .call o _ body enter leave, s, kx, _, k =>
       den body { enter s with self := s.obj o } kx (fun t => k (leave s t.out)) (fun t => k (leave s t.out))
-  | .callR o _ body enter leave, s, kx, _, k =>
-      den body { enter s with self := s.obj o } kx (fun t => k (leave s t.out)) (fun t => k (leave s t.out))
+  | .callR _ _ body enter leave, s, kx, _, k =>
+      den body (enter s) kx (fun t => k (leave s t.out)) (fun t => k (leave s t.out))
   | .loop _, s, _, _, k => k s
 
 /-- a complete operation: run the method, return its value (falling off the end returns `None`) -/
@@ -365,6 +365,11 @@ def mFromAffine : M :=
     | .int x, .int y => .ok (.pt (.jac ⟨(info s.other).curve, x, y, 1, (info s.other).order, s.ka != 0⟩))
     | _, _ => .error .typeError
 
+/-- the shared object a call result IS (`P * 1` returns `P`), `dflt` if it is a new value -/
+def objOf : Out → Nat → Nat
+  | .obj i, _ => i
+  | _, dflt => dflt
+
 /-- how the result of a call enters a later operation as an operand -/
 def freshOf : Out → Fresh
   | .pt (.jac P) => .pj P
@@ -458,12 +463,14 @@ def mKeyVerifies : M :=
      loadPtr ;;
      .call .other "__rmul__" (mRmul info) (fun s => { self := s.other, ka := s.kb }) (fun s o => { s with r2 := o }) ;;
      .callR .self "__add__" (mAdd info)
-       (fun s => { self := s.self, other := s.other, selfFresh := freshOf s.r1, otherFresh := freshOf s.r2 })
+       (fun s => { self := objOf s.r1 s.self, other := objOf s.r2 s.other, selfFresh := freshOf s.r1,
+                   otherFresh := freshOf s.r2 })
        (fun s o => { s with r1 := o })) ;;
-  .callR .self "__eq__" (mEq info) (fun s => { self := s.self, otherInf := true, selfFresh := freshOf s.r1 })
+  .callR .self "__eq__" (mEq info) (fun s => { self := objOf s.r1 s.self, otherInf := true, selfFresh := freshOf s.r1 })
     (fun s o => { s with r2 := o }) ;;
   .ite (fun s => isTrue s.r2) (.ret fun _ => .ok (.bool false)) .skip ;;
-  .callR .self "x" (mX info) (fun s => { self := s.self, selfFresh := freshOf s.r1 }) (fun s o => { s with r2 := o }) ;;
+  .callR .self "x" (mX info) (fun s => { self := objOf s.r1 s.self, selfFresh := freshOf s.r1 })
+    (fun s o => { s with r2 := o }) ;;
   .ret fun s => match s.r2 with
     | .int x => .ok (.bool (pmod x (orderOf (info s.self)) == s.kd))
     | _ => .error .typeError
@@ -477,7 +484,8 @@ def mKeySign : M :=
   .ite (fun s => bitLength s.kb.toNat == bitLength (orderOf (info s.self)).toNat)
     (.call .self "__rmul__" (mRmul info) (fun s => { self := s.self, ka := s.ke }) (fun s o => { s with r1 := o }))
     (.call .self "__rmul__" (mRmul info) (fun s => { self := s.self, ka := s.kb }) (fun s o => { s with r1 := o })) ;;
-  .callR .self "x" (mX info) (fun s => { self := s.self, selfFresh := freshOf s.r1 }) (fun s o => { s with r2 := o }) ;;
+  .callR .self "x" (mX info) (fun s => { self := objOf s.r1 s.self, selfFresh := freshOf s.r1 })
+    (fun s o => { s with r2 := o }) ;;
   .pure (fun s => match s.r2 with
     | .int x => .ok { s with kb := pmod x (orderOf (info s.self)) }
     | _ => .error .typeError) ;;
